@@ -47,6 +47,8 @@ ASSUMPTIONS = [
     "covers handler path handling); other OSErrors (directory of that name, permissions) propagate and are not modelled",
     "diagram uuids are opaque strings; the file-name theorem holds for all strings, the handlers' own name normalisation "
     "(uuids containing '/' or '..') is not exercised",
+    "the installed entry-point metadata does not change during a run (importlib.metadata.entry_points is memoised by the harness: "
+    "the real code re-reads all distributions' metadata on every render, ~10 ms)",
     "pretty_print is not part of the property's quantifier: on a cache hit the code ignores it (modelled as coded; counted in "
     "extra.pretty_ignored_on_hit); the monitor's direct conversion uses the default pretty_print=False",
 ]
@@ -193,6 +195,21 @@ def install(mode: str):
             for other in objs:
                 if isinstance(other, type) and vars(other).get("depends") is obj:
                     P.set(other, "depends", w)
+
+    # importlib.metadata.entry_points() re-reads every installed distribution's metadata (~10 ms per call, the code calls
+    # it on every render): memoised per (group, name) for the duration of the run -- the installed metadata is constant.
+    import importlib.metadata as imm
+
+    orig_eps = imm.entry_points
+    memo: dict = {}
+
+    def entry_points(**kw):
+        key = tuple(sorted(kw.items()))
+        if key not in memo:
+            memo[key] = orig_eps(**kw)
+        return memo[key]
+
+    P.set(imm, "entry_points", entry_points)
 
     AD = D.AbstractDiagram
     orig_rf = AD._AbstractDiagram__render_fresh
